@@ -47,6 +47,7 @@ type c08Round struct {
 	Caller     bool            `json:"caller"`
 	AttrsR     bool            `json:"attrs_r"`
 	SharedSafe bool            `json:"shared_safe"`
+	Blanks     int             `json:"blank_calls"` // blank-line calls (Println() / Print("")) on one more logger before the goroutines start
 }
 
 // every level sorted by key, one attribute per key, no nil entries, no pre-filled
@@ -63,7 +64,7 @@ func c08Normalise(as []GAttr) []GAttr {
 	return out
 }
 
-var c08Texts = []string{"plain message", "two\nlines", "three\nlines\nhere", "tab\tand \"quotes\"", "trailing newline\n", "unicode é世界", ""}
+var c08Texts = []string{"long continuation lines\n" + strings.Repeat("c", 700) + "\n" + strings.Repeat("d", 700), "plain message", "two\nlines", "three\nlines\nhere", "tab\tand \"quotes\"", "trailing newline\n", "unicode é世界", ""}
 
 func c08GenRound(seed uint64, tier string, idx int, sharedSafe bool) *c08Round {
 	r := &Rng{seed*0x9e3779b97f4a7c15 + uint64(idx)*0xbf58476d1ce4e5b9 + 0xc08}
@@ -124,6 +125,9 @@ func c08GenRound(seed uint64, tier string, idx int, sharedSafe bool) *c08Round {
 	}
 	if sharedSafe {
 		rd.Shared = c08Normalise(rd.Shared)
+	}
+	if r.Chance(50) {
+		rd.Blanks = 1 + r.Intn(3)
 	}
 	id := 0
 	for g := 0; g < rd.G; g++ {
@@ -281,7 +285,7 @@ func c08clip(s string, n int) string {
 // Returns the (writer, call) pairs observed concurrently and per call (admitted, destinations of the twin).
 func c08RunRound(r *Run, rd *c08Round, st *c08Stats) (obs [][2]int, admitted []bool, dests [][]int) {
 	c08Flags(rd.Caller, rd.AttrsR)
-	rp := map[string]any{"mode": "stress", "seed": r.Seed, "tier": r.Tier, "round": rd.Idx, "shared_safe": rd.SharedSafe, "g": rd.G, "n": rd.N, "loggers": rd.Loggers, "shared": rd.Shared}
+	rp := map[string]any{"mode": "stress", "seed": r.Seed, "tier": r.Tier, "round": rd.Idx, "shared_safe": rd.SharedSafe, "g": rd.G, "n": rd.N, "loggers": rd.Loggers, "shared": rd.Shared, "blank_calls": rd.Blanks}
 	total := rd.G * rd.N
 	callOf := make([]c08CallDesc, total)
 	for _, cs := range rd.Calls {
@@ -336,6 +340,19 @@ func c08RunRound(r *Run, rd *c08Round, st *c08Stats) (obs [][2]int, admitted []b
 
 	// --- concurrent run on an identically built tree ---
 	rt := rd.build()
+	slog.VerifPoolsFresh() // the goroutines start on fresh pooled contexts (1 KiB buffers)
+	if rd.Blanks > 0 {     // earlier blank-line calls of the program, on a logger of their own
+		be := slog.VerifEntryOf(slog.New("c08blank"))
+		sink := &c08W{id: -1}
+		be.SetWriter(sink).SetErrorWriter(sink)
+		for i := 0; i < rd.Blanks; i++ {
+			if i%2 == 0 {
+				be.Println()
+			} else {
+				be.Print("")
+			}
+		}
+	}
 	argv := make([][]any, total)
 	for _, cs := range rd.Calls {
 		for _, cd := range cs {
